@@ -286,6 +286,21 @@ def _callable(draw, idx, hostile, annotate):
             'since': draw(st.sampled_from([None, None, '1.2'])), 'deprecated': draw(st.sampled_from([None, None, None, '1.4: Use something else']))}
 
 
+def _cb_chain(draw, idx):
+    def mk(shape, i, kinds, ret='void'):
+        names = ['p%d' % j for j in range(len(kinds))]
+        return {'shape': shape, 'idx': i, 'kinds': list(kinds), 'names': names, 'ret': ret, 'varargs': False, 'ann': {},
+                'ident_ann': [], 'doc': '', 'since': None, 'deprecated': None, 'chain': True}
+    bad = draw(st.sampled_from(['va_list', 'longlong', 'alias-va', 'foreign', 'alias-unknown', 'longdouble']))
+    b = mk('callback', idx, [draw(st.sampled_from(['int', 'obj*', 'str'])), bad])
+    a = mk('callback', idx + 1, ['usercb:FooFunc%d' % idx, 'gpointer'])
+    user_shape = draw(st.sampled_from(['vfunc', 'vfunc', 'method-obj', 'method-rec', 'function', 'ctor']))
+    u = mk(user_shape, idx + 2, ['usercb:FooFunc%d' % (idx + 1), 'gpointer'], draw(st.sampled_from(['void', 'int', 'obj*'])))
+    u['names'] = ['func', 'user_data']
+    a['names'] = ['inner', 'user_data']
+    return [b, a, u]
+
+
 ARRAYABLE = ('strv', 'int*', 'guint8*', 'rec**', 'gboolean*')
 LENGTHISH = ('int', 'guint', 'gsize')
 
@@ -396,6 +411,11 @@ def api(draw, hostile=True, annotate=True, max_callables=6, with_gobject=True):
     decls = fixed_decls(order_seed, with_gobject)
     n = draw(st.integers(1, max_callables))
     callables = [draw(_callable(i, hostile, annotate)) for i in range(n)]
+    if hostile and draw(st.integers(0, 2)) == 0:
+        # a chain user -> callback A -> callback B where only B has an unbindable parameter: whether the user is demoted
+        # depends on A having been demoted before the user is looked at (namespace order: a class or record declared
+        # before the callback typedefs is analysed first)
+        callables.extend(_cb_chain(draw, len(callables)))
     twin = None
     if annotate and draw(st.booleans()):
         twin = _twin(draw, callables)
@@ -462,7 +482,36 @@ def api(draw, hostile=True, annotate=True, max_callables=6, with_gobject=True):
                                           'FooBoxed', 'gpointer', 'GStrv']))
             props.append('<property name="prop-%d" type="%s" flags="%d"%s/>'
                          % (j, ptype, draw(st.sampled_from([1, 2, 3, 7, 11, 227])),
-                            draw(st.sampled_from(['', ' default-value="0"']))))
+                            draw(st.sampled_from(['', ' default-value="0"', ' default-value=""', ' default-value="a &lt;b&gt;"']))))
+        # accessor methods for some properties, sometimes with an explicit (set-property)/(get-property) annotation that
+        # names the same, another or no existing property, and property blocks with (setter)/(getter)
+        acc_types = {'gint': B('int'), 'gchararray': B('char', 1, True), 'gboolean': T('gboolean'), 'FooObj': T('FooObj', 1),
+                     'GObject': T('GObject', 1), 'FooKind': T('FooKind')}
+        nprops = len(props)
+        for j, ptxt in enumerate(props):
+            ptype = ptxt.split('type="')[1].split('"')[0]
+            if ptype not in acc_types or not draw(st.booleans()):
+                continue
+            for which in ('set', 'get'):
+                if not draw(st.integers(0, 3)):
+                    continue
+                fname = 'foo_obj_%s_prop_%d' % (which, j)
+                if which == 'set':
+                    decls.append({'d': 'function', 'name': fname, 'ret': VOID,
+                                  'params': [param('self', T('FooObj', 1)), param('value', acc_types[ptype])]})
+                else:
+                    decls.append({'d': 'function', 'name': fname, 'ret': acc_types[ptype], 'params': [param('self', T('FooObj', 1))]})
+                if annotate and draw(st.integers(0, 2)) == 0:
+                    tgt = draw(st.integers(0, nprops))      # nprops itself: a property that does not exist
+                    comments.append(['/**\n * %s: (%s-property prop-%d)\n * @self: an object\n%s *\n * Accessor.\n%s */'
+                                     % (fname, which, tgt, ' * @value: (transfer none): a value\n' if which == 'set' else '',
+                                        ' *\n * Returns: (transfer none): the value\n' if which == 'get' else ''),
+                                     '/src/foo.c', 2000 + 20 * j + (which == 'get')])
+            if annotate and draw(st.integers(0, 3)) == 0:
+                k = draw(st.integers(0, nprops))
+                comments.append(['/**\n * FooObj:prop-%d: (%s %s_prop_%d)\n *\n * A property.\n */'
+                                 % (j, draw(st.sampled_from(['setter', 'getter'])), draw(st.sampled_from(['set', 'get'])), k),
+                                 '/src/foo.c', 2400 + 10 * j])
         sigs = []
         for j in range(draw(st.integers(0, 2))):
             ptypes = draw(st.lists(st.sampled_from(['gint', 'gchararray', 'FooObj', 'FooBoxed', 'FooHiddenType', 'gpointer',
